@@ -80,6 +80,15 @@ type Remote struct {
 
 	mu      sync.Mutex
 	pending map[string]pendingMsg
+	closed  bool
+}
+
+// Closed returns true once Serve has ended, no further messages are read from
+// the connection after that.
+func (r *Remote) Closed() bool {
+	r.mu.Lock()
+	defer r.mu.Unlock()
+	return r.closed
 }
 
 // clearPending removes num oldest entries, must hold the r.mu lock.
@@ -132,6 +141,9 @@ func (r *Remote) Serve() error {
 	for {
 		msg, err := r.Codec.ReadMessage()
 		if err != nil {
+			r.mu.Lock()
+			r.closed = true
+			r.mu.Unlock()
 			return err
 		}
 		if msg.Request != nil {
